@@ -120,7 +120,7 @@ class TourSpec:
         if not self.closed:
             # ActorDetail.time.end is MAX for open tours
             pass
-        return env.route_ctx(actor, acts, self.closed)
+        return env.route_ctx(actor, acts, self.closed, n_jobs=getattr(self, 'n_jobs', None))
 
     # ---- reference simulation
     def sim(self, jobs=None):
@@ -1490,6 +1490,16 @@ def ob_simple_objectives(ctx):
             # an empty route is not part of solution.routes: using it adds one tour
             before = fitness_tours(eng, st, obj, 1 if k > 0 else 0)
             after = fitness_tours(eng, st, obj, 1)
+            # maximize tours: the mirror image
+            f1b = ctx.prog.find_free('create_maximize_tours_feature')
+            featb = eng.exec_fn(st, f1b, [name_tok])
+            if featb.variant() != 0:
+                raise Inconclusive('create_maximize_tours_feature failed')
+            objb = feature_objective(featb.payload[0][0])
+            mx_route = estimate(eng, st, objb, move_ctx_route(env, rc, job))
+            mx_act = estimate(eng, st, objb, move_ctx_activity(env, rc, actx))
+            mx_before = fitness_tours(eng, st, objb, 1 if k > 0 else 0)
+            mx_after = fitness_tours(eng, st, objb, 1)
             # minimize unassigned (custom estimator = symbolic weight)
             mb = ctx.prog.find_method('MinimizeUnassignedBuilder', 'build')
             builder = env.struct('minimize_unassigned::MinimizeUnassignedBuilder', name=Opaque('"feature"'),
@@ -1507,7 +1517,7 @@ def ob_simple_objectives(ctx):
             obj3 = feature_objective(feat3.payload[0][0])
             v_route = estimate(eng, st, obj3, move_ctx_route(env, rc, job))
             v_act = estimate(eng, st, obj3, move_ctx_activity(env, rc, actx))
-            return e_route, e_act, before, after, u_route, u_act, v_route, v_act
+            return e_route, e_act, before, after, u_route, u_act, v_route, v_act, (mx_route, mx_act, mx_before, mx_after)
 
         paths = eng.explore(body)
         res.paths += len(paths)
@@ -1517,13 +1527,20 @@ def ob_simple_objectives(ctx):
                 if not no_panic(ctx, res, env, st, what=name):
                     break
                 continue
-            e_route, e_act, before, after, u_route, u_act, v_route, v_act = out
+            e_route, e_act, before, after, u_route, u_act, v_route, v_act, (mx_route, mx_act, mx_before, mx_after) = out
             w = env.sym_f('job_weight', 0, 2 ** 16)
             val = env.sym_f('job_value', 0, 2 ** 16)
             claims = [f_eq(e_route, fv_sub(after, before)), f_eq(e_act, FV.const(0)),
+                      f_eq(mx_route, fv_sub(mx_after, mx_before)), f_eq(mx_act, FV.const(0)),
+                      f_eq(after, FV.const(1)), f_eq(mx_after, FV.const(-1)),
                       f_eq(u_route, FV(False, -w.v)), f_eq(u_act, FV.const(0)),
                       f_eq(v_route, FV(False, -val.v)), f_eq(v_act, FV.const(0))]
             if not decide_claim(ctx, res, env, st, z3.And(*claims), what=f'{name}[k={k}]: estimates == objective changes'):
+                if res.status == 'violated':
+                    m = res.model
+                    res.case = {'kind': 'simple_objectives', 'closed': True, 'shift_start': 0, 'dep0': 0, 'shift_end': 100000, 'l0': 0, 'lend': 0,
+                                'jobs': [{'loc': i + 1, 'dur': 0, 'tws': 0, 'twe': None} for i in range(k)],
+                                'weight': _ev_int(m, w.v), 'value': _ev_int(m, val.v), 'dur': [], 'dist': [], 'dur_default': 0, 'dist_default': 0}
                 break
             if not no_panic(ctx, res, env, st, what=name):
                 break
@@ -1816,5 +1833,232 @@ def ob_fold_step(ctx, k, nonneg):
             break
     if res.status == 'holds' and res.witnesses == 0:
         res.status, res.detail = 'inconclusive', 'vacuous'
+    res.time = time.time() - t0
+    return res
+
+
+def ob_route_level_gates(ctx, k, n_tw, multi_in_tour=False, n_places=1):
+    """C01/C06 route-level gates: `TransportConstraint::evaluate_job` accepts a single job exactly when one of its time
+    windows intersects the vehicle's shift window (inclusive), and the tour size limit (`ActivityLimitConstraint`)
+    accepts a job exactly when the number of job activities after the insertion stays within the limit (single job = 1,
+    multi job = number of sub-jobs)."""
+    from symex import DynV
+    name = f'route_level_gates[k={k},tw={n_tw}{",multi-in-tour" if multi_in_tour else ""}{",places=" + str(n_places) if n_places > 1 else ""}]'
+    res = Result(name)
+    res.bounds = (f'tour of {k} job activities' + (' of which the first two are the tasks of ONE multi job (job set smaller than activity count)' if multi_in_tour else ' (single jobs)') +
+                  f'; job with {n_places} alternative place(s), each with {n_tw} symbolic time windows; multi job with 2 sub-jobs; symbolic optional size limit in [0,8]')
+    t0 = time.time()
+    ej = ctx.prog.find_method('TransportConstraint', 'evaluate_job')
+    al = ctx.prog.find_method('ActivityLimitConstraint', 'evaluate', trait='FeatureConstraint')
+    if len(ej) != 1 or len(al) != 1:
+        raise Inconclusive('evaluate_job / ActivityLimitConstraint::evaluate not found')
+
+    class Env(drivers.Env):
+        def dyn_closure(self, engine, st, tag, args):
+            if tag == 'size_limit':
+                lim = z3.Int('size_limit')
+                st.assumed.append(z3.And(lim >= 0, lim <= 8))
+                return mk_option(z3.Bool('has_size_limit'), IV(lim), ty='Option<usize>')
+            return super().dyn_closure(engine, st, tag, args)
+
+    env = Env(ctx.prog, ctx.layout, 16)
+    eng = symex.Engine(ctx.prog, ctx.layout, env)
+    holder = {}
+
+    def body(st):
+        env.assumptions.clear()
+        spec = TourSpec(env, k, True)
+        if multi_in_tour:
+            spec.n_jobs = k - 1
+        rc = spec.build()
+        holder['spec'] = spec
+        tws = [(env.sym_f(f'tw{i}_start'), env.sym_f(f'tw{i}_end')) for i in range(n_tw * n_places)]
+        holder['tws'] = tws
+        places = [env.struct('jobs::Place', location=mk_option(True, IV(5 + pi), ty='Option<usize>'), duration=FV.const(0),
+                             times=VecV([EnumV('domain::TimeSpan', 0, {0: [env.time_window(a, b)]}) for a, b in tws[pi * n_tw:(pi + 1) * n_tw]]))
+                  for pi in range(n_places)]
+        single = ArcV(Cell(env.struct('jobs::Single', places=VecV(places), dimens=StateV())))
+        job = EnumV('jobs::Job', 0, {0: [single]})
+        a = eng.exec_fn(st, ej[0], [RefV(Cell(transport_constraint(env)), 0), RefV(Cell(rc), 0), RefV(Cell(job), 0)])
+        con = env.struct('tour_limits::ActivityLimitConstraint', code=Agg('struct', [IV(6, 'i32')], 'goal::ViolationCode'), limit_fn=ArcV(Cell(DynV('size_limit'))))
+        b = eng.exec_fn(st, al[0], [RefV(Cell(con), 0), RefV(Cell(move_ctx_route(env, rc, job)), 0)])
+        mo = ctx.layout.fields('jobs::Multi')
+        multi = Agg('struct', [Opaque(f) for f in mo], 'jobs::Multi')
+        multi.fields[mo.index('jobs')] = VecV([Opaque('sub1'), Opaque('sub2')])
+        mjob = EnumV('jobs::Job', 1, {1: [ArcV(Cell(multi))]})
+        c = eng.exec_fn(st, al[0], [RefV(Cell(con), 0), RefV(Cell(move_ctx_route(env, rc, mjob)), 0)])
+        return a, b, c
+
+    paths = eng.explore(body)
+    res.paths = len(paths)
+    res.functions |= eng.functions_used
+    saw = set()
+    for st, out in paths:
+        if out is None:
+            if not no_panic(ctx, res, env, st, what=name):
+                break
+            continue
+        a, b, c = out
+        spec, tws = holder['spec'], holder['tws']
+        inter = z3.Or(*[z3.And(f_le(s, spec.shift_end), f_le(spec.shift_start, e)) for s, e in tws])
+        has, lim = z3.Bool('has_size_limit'), z3.Int('size_limit')
+        claims = [zs(a.discr == 0) == inter,
+                  zs(b.discr == 0) == z3.Or(z3.Not(has), k + 1 <= lim),
+                  zs(c.discr == 0) == z3.Or(z3.Not(has), k + 2 <= lim)]
+        dom = [z3.And(lim >= 0, lim <= 8)]
+        if not decide_claim(ctx, res, env, st, z3.And(*claims), dom, what=f'{name}: route-level verdicts'):
+            if res.status == 'violated':
+                m = res.model
+                res.case = make_case('route_gates', env, spec, m, extra={
+                    'route_job': {'tws': [[_ev_f(m, s), _ev_f(m, e)] for s, e in tws], 'windows_per_place': n_tw},
+                    'size_limit': _ev_int(m, lim) if z3.is_true(m.eval(has, model_completion=True)) else None,
+                    'multi_in_tour': multi_in_tour})
+            break
+        if not no_panic(ctx, res, env, st, dom, what=name):
+            break
+        if witness(ctx, res, env, st, z3.And(a.discr == 0, b.discr == 1), dom):
+            saw.add('mixed')
+        if witness(ctx, res, env, st, z3.And(a.discr == 1), dom):
+            saw.add('tw-rejected')
+    res.witnesses = len(saw)
+    if res.status == 'holds' and len(saw) < 2:
+        res.status, res.detail = 'inconclusive', f'vacuous: {saw}'
+    res.time = time.time() - t0
+    return res
+
+
+def ob_multi_job_scan(ctx, k):
+    """C06 (multi-task jobs): `eval_multi` (real MIR: permutations, shadow context, sequential sub-job search) for a
+    pickup+delivery job on a tour of k jobs, with the goal's verdict and cost for every (sub-job, leg, shadow state)
+    symbolic: whenever it reports Success, both tasks are placed, the delivery after the pickup, every chosen placement had NO
+    violation on the shadow tour that already contains the earlier task, and the quoted cost is the sum of the chosen
+    placements' estimates.  (Failure is allowed to miss feasible combinations - greedy search, by the property itself.)"""
+    from symex import DynV
+    name = f'multi_job_scan[k={k}]'
+    res = Result(name)
+    res.bounds = f'closed tour of {k} jobs; multi job with 2 single-place single-window tasks in the fixed order (pickup, delivery); symbolic verdict/cost per (task, leg, position of the earlier task)'
+    t0 = time.time()
+    fn = ctx.prog.find_free('eval_multi')
+
+    class Env(drivers.Env):
+        def key(self, mc):
+            rc = deref_all(mc.payload[1][1])
+            actx = deref_all(mc.payload[1][2])
+            idx = self.field(actx, 'context::ActivityContext', 'index').concrete()
+            tgt = deref_all(self.field(actx, 'context::ActivityContext', 'target'))
+            tjob = self.field(tgt, 'route::Activity', 'job').payload[1][0].cell
+            service = self.services.index(tjob)
+            # where do the tasks already sit in the (shadow) tour?
+            pos = []
+            for i, a in enumerate(self.tour_activities(rc)):
+                j = self.field(a, 'route::Activity', 'job')
+                if j.variant() == 1 and j.payload[1][0].cell in self.services:
+                    pos.append((self.services.index(j.payload[1][0].cell), i))
+            return service, idx, tuple(pos)
+
+        def override(self, engine, st, callee, args, dest_ty):
+            if callee.endswith('GoalContext::evaluate') or callee.endswith('GoalContext::estimate'):
+                mc = deref_all(args[1])
+                service, idx, pos = self.key(mc)
+                tag = f's{service}_l{idx}_' + '_'.join(f'{a}at{b}' for a, b in pos)
+                self.calls.append((callee.split('::')[-1], service, idx, pos, tag))
+                if callee.endswith('evaluate'):
+                    v = self.struct('goal::ConstraintViolation', code=Agg('struct', [IV(1, 'i32')], 'goal::ViolationCode'), stopped=BV(z3.Bool('stop_' + tag)))
+                    return mk_option(z3.Bool('viol_' + tag), v, ty='Option<ConstraintViolation>')
+                return self.struct('insertions::InsertionCost', data=VecV([self.sym_f_path(st, 'cost_' + tag, 0, 2 ** 20)]))
+            if callee.endswith('GoalContext::accept_route_state'):
+                return UnitV()
+            if callee.endswith('Multi::permutations'):
+                return VecV([VecV([ArcV(c) for c in self.services])])
+            if callee.endswith('InsertionCost::max_value'):
+                return RefV(Cell(self.struct('insertions::InsertionCost', data=VecV([FV.max_value()]))), 0)
+            if callee.endswith('UnwrapValue>::unwrap_value'):
+                cf = args[0]
+                v = cf.variant()
+                if v is None:
+                    v = 0 if engine.split_bool(st, cf.discr == 0) else 1
+                return cf.payload[v][0]
+            return super().override(engine, st, callee, args, dest_ty)
+
+        def dyn_call(self, engine, st, trait, method, args, dest_ty):
+            if trait == 'ResultSelector' and method == 'select_cost':
+                return engine.exec_fn(st, self._trait_default('ResultSelector', 'select_cost'), args)
+            return super().dyn_call(engine, st, trait, method, args, dest_ty)
+
+    env = Env(ctx.prog, ctx.layout, 16)
+    eng = symex.Engine(ctx.prog, ctx.layout, env)
+
+    def body(st):
+        env.assumptions.clear()
+        env.calls = []
+        spec = TourSpec(env, k, True)
+        rc = spec.build()
+        singles = []
+        for i in range(2):
+            place = env.struct('jobs::Place', location=mk_option(True, IV(70 + i), ty='Option<usize>'), duration=FV.const(0),
+                               times=VecV([EnumV('domain::TimeSpan', 0, {0: [env.time_window(FV.const(0), FV.max_value())]})]))
+            singles.append(ArcV(Cell(env.struct('jobs::Single', places=VecV([place]), dimens=StateV()))))
+        env.services = [s.cell for s in singles]
+        mo = ctx.layout.fields('jobs::Multi')
+        multi = Agg('struct', [Opaque(f) for f in mo], 'jobs::Multi')
+        multi.fields[mo.index('jobs')] = VecV(singles)
+        marc = ArcV(Cell(multi))
+        job = EnumV('jobs::Job', 1, {1: [marc]})
+        eval_ctx = env.struct('evaluators::EvaluationContext', goal=RefV(Cell(Opaque('goal')), 0), job=RefV(Cell(job), 0),
+                              leg_selection=RefV(Cell(EnumV('selectors::LegSelection', 1, {})), 0), result_selector=RefV(Cell(DynV('selector')), 0))
+        route_costs = env.struct('insertions::InsertionCost', data=VecV([FV.const(0)]))
+        try:
+            out = eng.exec_fn(st, fn, [RefV(Cell(eval_ctx), 0), RefV(Cell(Opaque('SolutionContext')), 0), RefV(Cell(rc), 0), RefV(Cell(marc), 0),
+                                       EnumV('evaluators::InsertionPosition', 0, {}), route_costs, mk_option(False, ty='Option<InsertionCost>')])
+        finally:
+            st.user_calls = list(env.calls)
+            st.user_services = list(env.services)
+        return out
+
+    paths = eng.explore(body, max_paths=20000)
+    res.paths = len(paths)
+    res.functions |= eng.functions_used
+    saw_ok = saw_fail = False
+    for st, out in paths:
+        if out is None:
+            if not no_panic(ctx, res, env, st, what=name):
+                break
+            continue
+        res.claims += 1
+        if out.variant() == 1:
+            saw_fail = True
+            continue
+        s = out.payload[0][0]
+        order = ctx.layout.fields('insertions::InsertionSuccess')
+        acts = s.fields[order.index('activities')].items
+        rcost = s.fields[order.index('cost')].fields[0].items[0]
+        if len(acts) != 2:
+            res.status, res.detail = 'violated', f'success with {len(acts)} activities for a two-task job'
+            break
+        (a0, i0), (a1, i1) = [(x.fields[0], x.fields[1].concrete()) for x in acts]
+        s0 = st.user_services.index(env.field(a0, 'route::Activity', 'job').payload[1][0].cell)
+        s1 = st.user_services.index(env.field(a1, 'route::Activity', 'job').payload[1][0].cell)
+        if (s0, s1) != (0, 1) or i0 is None or i1 is None or i1 < i0 + 1:
+            res.status, res.detail = 'violated', f'tasks placed in a forbidden order or at inconsistent legs: tasks {(s0, s1)} legs {(i0, i1)}'
+            break
+        # the verdict/cost symbols of the chosen placements: pickup on the original tour, delivery on the shadow tour with the pickup at i0+1
+        tag0 = f's0_l{i0}_'
+        tag1 = f's1_l{i1}_0at{i0 + 1}'
+        called = {c[4] for c in st.user_calls if c[0] == 'evaluate'}
+        if tag0 not in called or tag1 not in called:
+            res.status, res.detail = 'violated', f'a returned placement was never evaluated: {tag0} / {tag1} not in {sorted(called)[:6]}'
+            break
+        claim = z3.And(z3.Not(z3.Bool('viol_' + tag0)), z3.Not(z3.Bool('viol_' + tag1)), z3.Not(rcost.m),
+                       rcost.v == z3.Int('cost_' + tag0) + z3.Int('cost_' + tag1))
+        dom = [z3.And(z3.Int('cost_' + t) >= 0, z3.Int('cost_' + t) <= 2 ** 20) for t in (tag0, tag1)]
+        if not decide_claim(ctx, res, env, st, claim, dom, what=f'{name}: success => both placements violation-free on the shadow tour, cost = sum'):
+            break
+        if not no_panic(ctx, res, env, st, dom, what=name):
+            break
+        saw_ok = saw_ok or witness(ctx, res, env, st, z3.BoolVal(True), dom)
+    if res.status == 'holds':
+        res.witnesses = int(saw_ok) + int(saw_fail)
+        if not saw_ok:
+            res.status, res.detail = 'inconclusive', 'vacuous: no successful path'
     res.time = time.time() - t0
     return res
